@@ -32,6 +32,7 @@ var pureInvokePrefixes = []string{
 	"(crypto/cipher.AEAD).", "(crypto/cipher.Block).", "(crypto/cipher.BlockMode).", "(crypto/cipher.Stream).",
 	"(io.Reader).Read", "(io.Writer).Write",
 	"(github.com/pion/dtls/v3/pkg/crypto/ciphersuite.cbcMode).",
+	"(github.com/pion/transport/v4/replaydetector.ReplayDetector).",
 	"(github.com/pion/logging.LoggerFactory).",
 	"(crypto.PublicKey).", "(crypto.Signer).Public",
 }
@@ -57,7 +58,7 @@ func externalMods(fn *ssa.Function) ([]string, bool) {
 		case path == "sync/atomic", path == "internal/runtime/atomic":
 			// the pointee is written by Store/Add/Swap/CompareAndSwap: callers inside the repository
 			// reach these through intrinsics; elsewhere only the atomic cell changes
-			return []string{"M$uint32", "M$uint64", "M$int32", "M$int64", "M$uintptr", "M$unsafe.Pointer", "F$sync/atomic.Value$v", "F$sync/atomic.Bool$v", "F$sync/atomic.Uint32$v", "F$sync/atomic.Uint64$v", "F$sync/atomic.Int32$v", "F$sync/atomic.Int64$v"}, true
+			return []string{"M$uint32", "M$uint64", "M$int32", "M$int64", "M$uintptr", "M$unsafe.Pointer", "prefix:sync/atomic.", "F$sync/atomic.Value$v", "F$sync/atomic.Bool$v", "F$sync/atomic.Uint32$v", "F$sync/atomic.Uint64$v", "F$sync/atomic.Int32$v", "F$sync/atomic.Int64$v"}, true
 		case strings.HasPrefix(path, "crypto/") && path != "crypto/x509" && path != "crypto/tls", path == "crypto", strings.HasPrefix(path, "hash"),
 			strings.HasPrefix(path, "golang.org/x/crypto/") && path != "golang.org/x/crypto/cryptobyte":
 			// crypto library code writes only its own objects and the byte buffers handed to it
@@ -65,6 +66,12 @@ func externalMods(fn *ssa.Function) ([]string, bool) {
 		}
 	}
 	if strings.HasPrefix(full, "(*sync.Pool).") {
+		return []string{"$alloc"}, true
+	}
+	if full == "bytes.Clone" {
+		return []string{"$alloc", "N$M$uint8"}, true
+	}
+	if full == "time.AfterFunc" {
 		return []string{"$alloc"}, true
 	}
 	switch {
@@ -223,7 +230,7 @@ func (f *frame) intrinsic(full string, callee *ssa.Function, c *ssa.CallCommon, 
 			return nil, false
 		}
 		el := sl.Elem()
-		if isStructType(el) || tt.sortOf(el) == SStr || tt.sortOf(el) == SIface || tt.sortOf(el) == SFloat {
+		if isStructType(el) || tt.sortOf(el) == SIface || tt.sortOf(el) == SFloat {
 			return nil, false
 		}
 		vc.trust("slices.Contains / slices.Index (first index of an equal element, -1 if none)")
@@ -243,6 +250,11 @@ func (f *frame) intrinsic(full string, callee *ssa.Function, c *ssa.CallCommon, 
 			return []Term{found}, true
 		}
 		return []Term{mkIte(found, k, i64(-1))}, true
+	case full == "github.com/pion/transport/v4/replaydetector.New", full == "github.com/pion/transport/v4/replaydetector.WithWrap":
+		vc.trust(full + " (returns a non-nil detector)")
+		a := f.alloc(i64(1))
+		vc.assume(ule(i64(4096), a))
+		return []Term{mkIface(i64(int64(tt.typeIDName("*replaydetector.slidingWindowDetector"))), a)}, true
 	case full == "errors.New", full == "fmt.Errorf":
 		vc.trust(full)
 		a := f.alloc(i64(1))
@@ -272,6 +284,66 @@ func (f *frame) intrinsic(full string, callee *ssa.Function, c *ssa.CallCommon, 
 			return []Term{r}, true
 		}
 		return nil, true
+	case strings.HasPrefix(full, "(*sync/atomic.Value)."), strings.HasPrefix(full, "(*sync/atomic.Pointer["):
+		// sequential semantics on the single value cell of the object
+		vc.trust("sync/atomic.Value / Pointer (sequential semantics)")
+		recvT := deref(c.Args[0].Type())
+		si := tt.structOf(recvT)
+		fi := -1
+		for i, fl := range si.fields {
+			if fl.name == "v" {
+				fi = i
+			}
+		}
+		if fi < 0 {
+			return nil, false
+		}
+		isValue := strings.HasPrefix(full, "(*sync/atomic.Value).")
+		var cellT types.Type
+		if isValue {
+			cellT = types.NewInterfaceType(nil, nil)
+		} else {
+			nm := callee.Name()
+			switch {
+			case strings.HasPrefix(nm, "Load") || strings.HasPrefix(nm, "Swap"):
+				cellT = callee.Signature.Results().At(0).Type()
+			case callee.Signature.Params().Len() > 0:
+				cellT = callee.Signature.Params().At(callee.Signature.Params().Len() - 1).Type()
+			default:
+				return nil, false
+			}
+		}
+		hn := "F$" + si.key + "$v#" + fullType(cellT)
+		hs := arraySort(SBV64, tt.sortOf(cellT))
+		addr := args[0]
+		f.nonNil(pos, addr)
+		cur := func() Term { return mkSelect(f.st.get(hn, hs), addr, tt.sortOf(cellT)) }
+		set := func(v Term) { f.st.set(hn, vc.define(hn, mkStore(f.st.get(hn, hs), addr, v))) }
+		mname := callee.Name()
+		if i := strings.Index(mname, "["); i > 0 {
+			mname = mname[:i]
+		}
+		switch mname {
+		case "Load":
+			v := vc.define(f.prefix+"aload", cur())
+			if hasRefs(cellT) {
+				vc.assume(tt.typeInv(v, cellT, f.st.get("A$"+hn, SBV64)))
+			}
+			return []Term{v}, true
+		case "Store":
+			set(args[1])
+			return nil, true
+		case "Swap":
+			old := vc.define(f.prefix+"aswap", cur())
+			set(args[1])
+			return []Term{old}, true
+		case "CompareAndSwap":
+			old := vc.define(f.prefix+"acas", cur())
+			eq := vc.define(f.prefix+"acas$eq", f.equal(old, args[1], cellT))
+			set(mkIte(eq, args[2], old))
+			return []Term{eq}, true
+		}
+		return nil, false
 	case strings.HasPrefix(full, "sync/atomic."):
 		return f.atomicFn(callee, c, args, pos)
 	case full == "crypto/rand.Read":
